@@ -38,6 +38,74 @@ theorem mem_keysOf (recs : List ((Nat × Nat) × Rec)) (id k : Nat) :
     obtain ⟨rfl, rfl⟩ := Prod.mk.inj he
     exact ⟨_, ⟨hm, rfl⟩, rfl⟩
 
+theorem keysOf_cons (e : (Nat × Nat) × Rec) (recs : List ((Nat × Nat) × Rec)) (id : Nat) :
+    keysOf (e :: recs) id = if e.1.1 = id then e.1.2 :: keysOf recs id else keysOf recs id := by
+  unfold keysOf
+  by_cases h : e.1.1 = id <;> simp [List.filter_cons, h]
+
+/-- inserting a record whose key is above every retained key of its registration appends it to that
+registration's key list (the record list is in store-key order) and leaves the others alone -/
+theorem keysOf_insertRec_fresh (recs : List ((Nat × Nat) × Rec)) (id h : Nat) (r : Rec) (id' : Nat)
+    (hs : RecsSorted recs) (hgt : ∀ k ∈ keysOf recs id, k < h) :
+    keysOf (insertRec recs (id, h) r) id' = if id' = id then keysOf recs id' ++ [h] else keysOf recs id' := by
+  induction recs with
+  | nil =>
+    simp only [insertRec, keysOf_cons]
+    by_cases he : id' = id
+    · subst he; simp [keysOf]
+    · have : ¬ id = id' := fun e => he e.symm
+      simp [he, this, keysOf]
+  | cons p m ih =>
+    obtain ⟨⟨i, k⟩, v⟩ := p
+    unfold RecsSorted at hs
+    rw [List.pairwise_cons] at hs
+    have hgt' : ∀ k' ∈ keysOf m id, k' < h := by
+      intro k' hk'
+      apply hgt
+      rw [keysOf_cons]
+      split
+      · exact List.mem_cons_of_mem _ hk'
+      · exact hk'
+    have ih' := ih hs.2 hgt'
+    simp only [insertRec]
+    split
+    · -- the key is already there: impossible, it would not be below `h`
+      rename_i heq
+      obtain ⟨rfl, rfl⟩ := Prod.mk.inj heq
+      have := hgt k (by rw [keysOf_cons]; simp)
+      omega
+    · rename_i hne
+      split
+      · -- inserted in front: no record of `id` follows
+        rename_i hlt
+        have hnone : keysOf (((i, k), v) :: m) id = [] := by
+          apply List.eq_nil_iff_forall_not_mem.mpr
+          intro k' hk'
+          have hk'lt := hgt k' hk'
+          have hmem := (mem_keysOf _ _ _).mp hk'
+          simp only [keys, List.mem_map] at hmem
+          obtain ⟨e, he, hek⟩ := hmem
+          have hle : pairLt (id, h) e.1 = true := by
+            rw [List.mem_cons] at he
+            rcases he with rfl | he
+            · exact hlt
+            · exact pairLt_trans _ _ _ hlt (hs.1 e he)
+          rw [hek] at hle
+          simp [pairLt] at hle
+          omega
+        rw [keysOf_cons]
+        by_cases he : id' = id
+        · subst he
+          simp only [if_true, hnone, List.nil_append]
+        · have : ¬ id = id' := fun e => he e.symm
+          simp only [this, he, if_false]
+      · rw [keysOf_cons, ih', keysOf_cons]
+        by_cases he : id' = id
+        · subst he
+          simp only [if_true]
+          split <;> simp
+        · simp only [he, if_false]
+
 theorem keysOf_erase (recs : List ((Nat × Nat) × Rec)) (id d id' : Nat) (hnd : NoDupKeys recs) :
     keysOf (erase recs (id, d)) id' = if id' = id then (keysOf recs id').erase d else keysOf recs id' := by
   induction recs with
